@@ -91,7 +91,11 @@ void Encoder::putPacket(const Packet& packet)
         bytesLeft -= bytesToAdd;
 
         if (isSegmentedFlag == SegmentType::lastSegment)
-            addNewCMPFrame(packet);
+        {
+            // A segment stays alone in its frame: close the frame, the next message (if any) opens a new one
+            cmpFrame.resize(std::max(cmpFrame.size() - bytesLeft, minBytesPerMessage), 0);
+            bytesLeft = 0;
+        }
     }
 
 }
@@ -139,7 +143,8 @@ void Encoder::addNewDataHeader(const Packet& packet, uint16_t bytesToAdd, Segmen
 bool Encoder::checkIfSegmented(const Packet& packet)
 {
     bool isSegmented = (!cmpFrames.empty() && bytesLeft < sizeof(MessageHeader) + packet.getPayloadLength());
-    if (isSegmented)
+    // Open a new frame only if the current one already carries a message
+    if (isSegmented && bytesLeft < maxBytesPerMessage - sizeof(CmpHeader))
     {
         addNewCMPFrame(packet);
         isSegmented = (!cmpFrames.empty() && bytesLeft < sizeof(MessageHeader) + packet.getPayloadLength());
